@@ -26,7 +26,7 @@ let next_int () = int_of_string (next ())
 let nextz () = z_of_int (next_int ())
 
 let words = [| "?"; "dfsd"; "sd"; "nc"; "vg"; "sdn"; "dfr8"; "df24"; "gr"; "grr"; "dfp"; "vgi"; "n"; "lut"; "nolut";
-               "dfan"; "an"; "fl"; "fd"; "ol"; "od"; "nostrip"; "-" |]
+               "dfan"; "an"; "fl"; "fd"; "ol"; "od"; "nostrip"; "-"; "dfsdmeta"; "sdmeta"; "scale"; "strs"; "range"; "none" |]
 let show_tok = function
   | M.TI z -> string_of_int (int_of_z z)
   | M.TH b -> hex_of_bytes b
@@ -42,7 +42,21 @@ let parse_ds () =
     z_of_int (int_of_string t)) in
   let nt = nextz () in
   let data = bytes_of_hex (next ()) in
-  { M.ds_dims = dims; ds_nt = nt; ds_data = data }
+  let scales = Array.make rank None in
+  let strs = ref None and range = ref None in
+  let hx s = if s = "_" then [] else bytes_of_hex s in
+  let m = next () in
+  if m <> "-" then
+    List.iter (fun it ->
+      match it.[0] with
+      | 's' -> let eq = String.index it '=' in
+               scales.(int_of_string (String.sub it 1 (eq - 1))) <- Some (bytes_of_hex (String.sub it (eq + 1) (String.length it - eq - 1)))
+      | 't' -> (match String.split_on_char ';' (String.sub it 2 (String.length it - 2)) with
+                | [a; b; c] -> strs := Some ((hx a, hx b), hx c) | _ -> ())
+      | 'r' -> (match String.split_on_char ';' (String.sub it 2 (String.length it - 2)) with
+                | [a; b] -> range := Some (hx a, hx b) | _ -> ())
+      | _ -> ()) (String.split_on_char ',' m);
+  { M.ds_dims = dims; ds_nt = nt; ds_data = data; ds_scales = Array.to_list scales; ds_strs = !strs; ds_range = !range }
 
 let parse_im () =
   let x = nextz () in let y = nextz () in let nc = nextz () in let nt = nextz () in let il = nextz () in
@@ -81,6 +95,18 @@ let run_recs id =
        | Some (((rank, dims), ty), dref) ->
          print_string (Printf.sprintf "%s ndgm %d %s %d %d %s %d %s\n" id !k kind (zi r) (zi rank) (ints dims) (zi ty) (data_of M.dFTAG_SD dref))
        | None -> print_string (Printf.sprintf "%s ndgm %d %s %d none\n" id !k kind (zi r)));
+      (* the scales record of the group, through the SD reader's offset walk and the DFSD reader's sequential read *)
+      (match M.ndg_view st members, List.filter (fun (t', _) -> t' = M.dFTAG_SDS) members with
+       | Some (((_, dims), ty), _), (_, sr) :: _ ->
+         (match M.get st M.dFTAG_SDS sr with
+          | Some rc ->
+            let sizes = List.map (fun d -> z_of_int (zi d * zi (M.ntsize ty))) dims in
+            let show name l = List.iteri (fun i s ->
+              print_string (Printf.sprintf "%s %s %d %d %s\n" id name !k i (match s with Some b -> hex_of_bytes b | None -> "none"))) l in
+            show "scalem" (M.sd_read_scales sizes rc);
+            show "dscalem" (M.dfsd_read_scales sizes rc)
+          | None -> ())
+       | _, _ -> ());
       (match M.dfsd_view st members with
        | Some (((rank, dims), ty), dref) ->
          print_string (Printf.sprintf "%s dfsdm %d %s %d %d %s %d %s\n" id !k kind (zi r) (zi rank) (ints dims) (zi ty) (data_of M.dFTAG_SD dref))
@@ -131,12 +157,14 @@ let () =
         (match kind with
          | "sds" ->
            let w = next () in
+           let _pre = next () in let _edits = next () in
            let n = next_int () in
            let l = List.init n (fun _ -> parse_ds ()) in
            let wz = z_of_int (match w with "dfsd" -> 1 | "sd" -> 2 | _ -> 3) in
            print_lines id (M.sds_views wz l)
          | "img" ->
            let w = next () in
+           let _pre = next () in let _edits = next () in
            let ril = nextz () in
            let n = next_int () in
            let l = List.init n (fun _ -> parse_im ()) in
@@ -163,7 +191,8 @@ let () =
            let n = next_int () in
            let l = List.init n (fun _ -> parse_ds ()) in
            let st = M.old_sds_file (if form = "sdg" then M.dFTAG_SDG else M.dFTAG_NDG)
-                      (List.map (fun d -> ((d.M.ds_dims, d.M.ds_nt), M.file_order d.M.ds_nt d.M.ds_data)) l) in
+                      (List.map (fun d -> (((d.M.ds_dims, d.M.ds_nt), M.file_order d.M.ds_nt d.M.ds_data),
+                                            List.map (function Some b -> Some (M.file_order d.M.ds_nt b) | None -> None) d.M.ds_scales)) l) in
            show_store id "dsnvg" (-1) st;
            print_lines id (M.sds_views (z_of_int 1) l)
          | "rawimg" ->
